@@ -1321,6 +1321,44 @@ fn c06_oracles_sender(_plan: &Plan) -> Vec<Box<dyn Oracle>> {
 fn c06_gen_limits(seed: u64, run: u64, thorough: bool) -> Plan {
     world_b_handshake("C06", "b_asymmetric_limits", seed, run, thorough, true)
 }
+/// The handshake under faults (lost, duplicated and reordered handshake frames, stale requests
+/// that bear a client's address with other nonces and other limits, crash and restart on the
+/// same address): whatever the history, the limits a connection is set up with are the ones its
+/// peer advertised in the handshake that completed.
+fn c06_gen_limits_faults(seed: u64, run: u64, thorough: bool) -> Plan {
+    with_socket_faults(world_b_handshake("C06", "b_limits_under_faults", seed, run, thorough, false), seed, run)
+}
+/// Passes on only the named clauses of an oracle that decides more than one property.
+struct OnlyClauses {
+    inner: Box<dyn Oracle>,
+    allow: &'static [&'static str],
+}
+impl Oracle for OnlyClauses {
+    fn on(&mut self, rec: &Rec, cx: &Cx) -> Option<Violation> {
+        self.inner.on(rec, cx).filter(|v| self.allow.contains(&v.clause.as_str()))
+    }
+    fn reach(&self, out: &mut std::collections::BTreeMap<String, u64>) {
+        self.inner.reach(out)
+    }
+    fn nontrivial(&self) -> bool {
+        self.inner.nontrivial()
+    }
+    fn states(&self, out: &mut Vec<u64>) {
+        self.inner.states(out)
+    }
+}
+/// Under faults only the clauses about limits are C06's business (who may connect at all, and
+/// with which sequence numbers, is C07's).
+fn c06_oracles_limits_faults(plan: &Plan) -> Vec<Box<dyn Oracle>> {
+    with_states(vec![
+        Box::new(OnlyClauses { inner: Box::new(HandshakeOracle::new("C06")), allow: &["negotiated_alloc_wrong", "negotiated_rate_wrong", "incompatible_client_connected"] }),
+        Box::new(SenderLimitOracle::new("C06")),
+        Box::new(TransportOracle::new("C06", TransportClauses { order: true, ..Default::default() }, plan)),
+    ])
+}
+fn c06_claims_limits_faults(run: u64) -> bool {
+    (4200..4400).contains(&run) || (run >= 4400 && run % 16 == 9)
+}
 fn c06_oracles_limits(plan: &Plan) -> Vec<Box<dyn Oracle>> {
     with_states(vec![
         Box::new(HandshakeOracle::new("C06")),
@@ -1465,6 +1503,8 @@ pub fn c06() -> CheckDef {
                 what: "real Client/Server with receive allocations 2 kB..4 MB: the limit each sender uses is the one its peer advertised in the handshake, and is respected" },
             Family { name: "a_hostile_stream", world: "A", weight: 300, gen: c06_gen_hostile_stream, oracles: c06_oracles_receiver, adversary: Some(c06_adv), claims: None, keep_workload: false, custom: None,
                 what: "victim receiver (limit 1 byte..4 MB) against a hostile stream: fragment counts up to 65536, ids inside/outside the window, never-completing packets, inconsistent parent leads, any read cadence; heap bytes attributed to the victim (allocator measurement) stay within the rounded limit plus a constant bookkeeping budget" },
+            Family { name: "b_limits_under_faults", world: "B", weight: 0, gen: c06_gen_limits_faults, oracles: c06_oracles_limits_faults, adversary: Some(c07_adv), claims: Some(c06_claims_limits_faults), keep_workload: true, custom: None,
+                what: "real Client/Server handshakes under faults (lost, duplicated, reordered handshake frames, stale requests bearing a client's address with other nonces and limits, crash and restart on the same address; runs 4200-4399 and every 16th after them): the allocation and rate a connection is set up with are the ones its peer advertised in the handshake that completed, and the sender stays within them" },
             Family { name: "a_growing_packet", world: "A", weight: 0, gen: c06_gen_growing, oracles: c06_oracles_receiver, adversary: Some(c06_adv), claims: Some(c06_claims_growing), keep_workload: false, custom: None,
                 what: "victim receiver (limit 20 kB .. 4 MB) against one packet of 52-100 % of its limit that arrives in full fragments in ascending order, one per frame, and never completes (runs 4000-4199 and every 16th after them): heap bytes attributed to the victim stay within the rounded limit plus the bookkeeping budget while the packet grows" },
             Family { name: "a_ack_queue_flood", world: "A", weight: 30, gen: c06_gen_flood, oracles: c06_oracles_receiver, adversary: Some(c06_adv), claims: None, keep_workload: false, custom: None,
@@ -1472,7 +1512,7 @@ pub fn c06() -> CheckDef {
         ],
         panic_is_violation: panics_in_packet_sender,
         hang_is_violation: false,
-        quick_runs: 4200,
+        quick_runs: 4400,
         thorough_runs: 50_000,
         rule: "one case = one simulated run; distinct = distinct run digest; non-trivial = at least 10 limit checks (sender half) or 10 heap measurements after hostile traffic (receiver half)",
         real_code: REAL_A,
